@@ -51,6 +51,7 @@ type Lemma struct {
 	Pkg    *ssa.Package
 	Line   string
 	Tier   string
+	Uses   []string // extra packages whose initialisation the lemma needs
 }
 
 type ghostFun struct {
@@ -499,6 +500,9 @@ func (e *Engine) parseContractLines(p *packages.Package, file string, lines []st
 				}
 				if strings.HasPrefix(h, "tier=") {
 					lm.Tier = strings.TrimPrefix(h, "tier=")
+				}
+				if strings.HasPrefix(h, "uses=") {
+					lm.Uses = strings.Split(strings.TrimPrefix(h, "uses="), ",")
 				}
 			}
 			for _, ps := range strings.Split(r[i+1:j], ",") {
